@@ -27,15 +27,25 @@ from vlib.hyp import Failure, Outcome, Stats, search, derive_seed
 
 RULE = ('cases = box (dim 1-3, origin 0 / -L/2 / near / far up to 1e6 L, '
         'edges 0.5-2 x scale, scale 0.01-100), per-axis flag periodic / '
-        'mirror / none (>= 1 flagged), n_layers in {1,1.5,2,3}, radius_scale '
-        'in {1,2,3}, 1-3 arrays of 0-40 particles placed on a 1/16 lattice, '
+        'mirror / none (>= 1 flagged), n_layers in {1,1.5,2,3} or not passed, '
+        'radius_scale in {1,1.3,2,2.5,3}, backend not passed / "cython", 1-3 '
+        'arrays (get_particle_array, or a plain ParticleArray with x,y,z,h'
+        '[,u,v,w] only; some with a constant and an output list) of 0-40 '
+        'particles placed on a 1/16 lattice, '
         'uniformly, exactly on faces, 1 ulp inside/outside a face, next to '
         'the layer threshold, outside by < one period (periodic axes), '
         'coincident with another particle; per-particle h with T/L from '
         '0.08 to 1.8; copied properties None / list / per-array dict (always '
         'x,y,z,h,uid) plus typed and strided extras; 1-5 rounds of '
-        'move / change h / add a property / update through LinkedListNNPS, '
-        'SpatialHashNNPS, BoxSortNNPS.update_domain or DomainManager.update. '
+        'remove and add real particles on the ghosted arrays (arrays may '
+        'become empty and be refilled) / move / change h / add a property / '
+        'update through LinkedListNNPS, SpatialHashNNPS, '
+        'BoxSortNNPS.update_domain or DomainManager.update; before an '
+        'update the objects around the particles may be replaced (new NNPS '
+        'on the same DomainManager; new array objects with the same '
+        'particles, old ghosts kept or not, on the same DomainManager; new '
+        'DomainManager on arrays still holding the old ghosts) or '
+        'in_parallel may be set for that update. '
         'Non-trivial = a round in which >= 1 ghost is an edge/corner image '
         'or >= 1 particle was wrapped or >= 2 arrays have ghosts; distinct '
         'by case hash.')
@@ -62,6 +72,19 @@ ASSUMPTIONS = [
     'over all lattice images) only for purely periodic boxes whose periodic '
     'edges are all >= 2T, pairs within 1e-12 relative + 8 ulp of the '
     'cut-off free; NNPS queries only through LinkedListNNPS(dim=3)',
+    'update() with in_parallel set leaves the arrays bitwise as they are '
+    '(comment in CPUDomainManager.update: in parallel the parallel NNPS '
+    'creates the ghosts); constants, output_property_arrays and the name '
+    'of an array are not touched by any update',
+    'one DomainManager is handed new wrappers / new array objects only for '
+    'the same number of arrays with the same names and property sets '
+    '(a different array set on a used DomainManager meets stale ghost '
+    'buffers: reported separately, never generated); removing a property '
+    'between updates is not generated for the same reason',
+    'particles added between updates go in through add_particles and out '
+    'through remove_particles on the array that holds the previous ghosts; '
+    'the real records ParticleArray leaves behind are verified before the '
+    'update (a mismatch is reported as edit_bookkeeping)',
     'LinkedListNNPS/BoxSortNNPS are constructed with dim=3 (the dim<3 '
     'single-cell heap overflow belongs to C01); "requires too many '
     'cells" from an NNPS is its documented capacity limit, the history '
@@ -75,7 +98,11 @@ ESSENTIAL_LABELS = {'all': [
     'wrapped', 'ulp_outside', 'coincident', 'thin_box', 'props_list',
     'props_dict', 'props_none', 'strided_copied', 'empty_array',
     'mixed_periodic_mirror', 'threshold_band', 'completeness_checked',
-    'prop_added_midway', 'driver:ll', 'driver:sh', 'driver:bs', 'driver:dm']}
+    'prop_added_midway', 'driver:ll', 'driver:sh', 'driver:bs', 'driver:dm',
+    'grown', 'shrunk_partly', 'emptied', 'refilled', 'rewire:nnps_new',
+    'rewire:arrays_new', 'rewire:arrays_new_ghosts', 'rewire:dm_new',
+    'in_parallel', 'n_layers_default', 'backend_explicit', 'bare_array',
+    'plain_array', 'constants', 'corner3_image', 'layer_wider_than_box']}
 
 GHOST = 2
 UINT_MAX = 4294967295
@@ -144,8 +171,12 @@ def case_strategy(draw, driver, mode):
         hi[a] = o + ln
     fl = [a for a in range(3) if flags[a] != 'n']
     lref = min(hi[a] - lo[a] for a in fl)
-    n_layers = draw(st.sampled_from([1.0, 1.0, 2.0, 2.0, 3.0, 1.5]))
-    rs = draw(st.sampled_from([2.0, 2.0, 3.0, 1.0]))
+    # None = n_layers not passed (documented default of the signature: 2.0)
+    n_layers = draw(st.sampled_from([1.0, 1.0, 2.0, 2.0, 3.0, 1.5, None]))
+    nl_eff = 2.0 if n_layers is None else n_layers
+    rs = draw(st.sampled_from([2.0, 2.0, 3.0, 1.0, 2.5, 1.3]))
+    backend = draw(st.sampled_from([None, None, None, 'cython']))
+    has_mirror = 'm' in flags
     # ---- arrays and properties
     narr = draw(st.sampled_from([1, 2, 2, 3]))
     pmode = draw(st.sampled_from(['none', 'list', 'dict']))
@@ -160,11 +191,27 @@ def case_strategy(draw, driver, mode):
         else:
             extra = sorted(draw(st.sets(st.sampled_from(sorted(EXTRA)),
                                         max_size=4)))
-        arrays.append(dict(name='a%d' % i, n=n, extra=extra))
+        # full: get_particle_array (all default properties); uvw: a plain
+        # ParticleArray with x,y,z,h,u,v,w; bare: x,y,z,h only (mirror
+        # passes need u,v,w: see ASSUMPTIONS)
+        kind = draw(st.sampled_from(
+            ['full', 'full', 'full', 'uvw'] if has_mirror else
+            ['full', 'full', 'full', 'uvw', 'bare']))
+        consts = {}
+        if draw(st.integers(0, 3)) == 0:
+            consts['c0'] = [float(draw(st.integers(-3, 3)))
+                            for _ in range(draw(st.integers(1, 3)))]
+        out = None
+        if draw(st.integers(0, 3)) == 0:
+            out = draw(st.permutations(['x', 'y', 'z', 'h', 'uid']))[
+                :draw(st.integers(0, 5))]
+        arrays.append(dict(name='a%d' % i, n=n, extra=extra, kind=kind,
+                           consts=consts, out=out))
+    all_uvw = all(a['kind'] != 'bare' for a in arrays)
 
-    def draw_copy(extra):
+    def draw_copy(extra, uvw=True):
         c = ['x', 'y', 'z', 'h', 'uid']
-        if draw(st.integers(0, 3)) > 0:
+        if uvw and draw(st.integers(0, 3)) > 0:
             c += ['u', 'v', 'w']
         c += [e for e in extra if draw(st.booleans())]
         for sp in ('tag', 'gid', 'pid'):
@@ -173,12 +220,12 @@ def case_strategy(draw, driver, mode):
         return draw(st.permutations(c))
 
     if pmode == 'list':
-        cp = draw_copy(common)
+        cp = draw_copy(common, all_uvw)
         for a in arrays:
             a['copy'] = list(cp)
     elif pmode == 'dict':
         for a in arrays:
-            a['copy'] = list(draw_copy(a['extra']))
+            a['copy'] = list(draw_copy(a['extra'], a['kind'] != 'bare'))
     else:
         for a in arrays:
             a['copy'] = None
@@ -186,8 +233,9 @@ def case_strategy(draw, driver, mode):
     for a in arrays:
         n = a['n']
         vals = {}
-        for k in VEL:
-            vals[k] = [float(draw(st.integers(-3, 3))) for _ in range(n)]
+        if a['kind'] != 'bare':
+            for k in VEL:
+                vals[k] = [float(draw(st.integers(-3, 3))) for _ in range(n)]
         for e in a['extra']:
             ct, stride, _ = EXTRA[e]
             if ct in ('double', 'float'):
@@ -205,9 +253,65 @@ def case_strategy(draw, driver, mode):
     nrounds = draw(st.integers(1, 5))
     rounds = []
     cur_h = None
+    cur_n = [a['n'] for a in arrays]
+    # an empty array forces the bare DomainManager (see ASSUMPTIONS): only
+    # then may an edit empty an array
+    may_empty = driver == 'dm' or any(n == 0 for n in cur_n)
+    hmax = None
+
+    def draw_pos(pool):
+        if pool and draw(st.integers(0, 7)) == 0:
+            return list(draw(st.sampled_from(pool)))
+        p = [0.0] * 3
+        for ax in range(dim):
+            p[ax] = _draw_coord(draw, flags[ax], lo[ax], hi[ax], T)
+        return p
+
     for r in range(nrounds):
         rd = dict(h=None, pos=None, update_nnps=draw(st.booleans()),
-                  add_prop=None)
+                  add_prop=None, edit=None, rewire=None, parallel=False)
+        # -- real particles removed / added while the ghosts of the previous
+        #    round are in the arrays
+        if r > 0 and draw(st.integers(0, 2)) == 0:
+            edit = []
+            for i, a in enumerate(arrays):
+                n = cur_n[i]
+                if draw(st.integers(0, 3)) == 0:
+                    edit.append(None)
+                    continue
+                how = draw(st.sampled_from(['none', 'some', 'some', 'all',
+                                            'first', 'last']))
+                if n == 0 or how == 'none':
+                    rem = []
+                elif how == 'all':
+                    rem = list(range(n))
+                elif how == 'first':
+                    rem = [0]
+                elif how == 'last':
+                    rem = [n - 1]
+                else:
+                    rem = sorted(draw(st.sets(st.integers(0, n - 1),
+                                              max_size=n)))
+                nadd = draw(st.sampled_from([0, 0, 1, 2, 3, 6]))
+                if n - len(rem) + nadd > 40:
+                    nadd = 0
+                if n - len(rem) + nadd == 0 and not may_empty:
+                    nadd = 1
+                adds = []
+                for _ in range(nadd):
+                    ad = dict(hf=draw(st.sampled_from([1.0, 1.0, 0.5, 0.75,
+                                                       0.3])))
+                    if a['kind'] != 'bare':
+                        ad['uvw'] = [float(draw(st.integers(-3, 3)))
+                                     for _ in range(3)]
+                    adds.append(ad)
+                edit.append(dict(remove=rem, add=adds))
+                keep = [j for j in range(n) if j not in rem]
+                cur_h[i] = [cur_h[i][j] for j in keep] + \
+                    [hmax * ad['hf'] for ad in adds]
+                cur_n[i] = len(cur_h[i])
+            if any(e is not None for e in edit):
+                rd['edit'] = edit
         if r == 0 or draw(st.integers(0, 2)) > 0:
             # cell size / shortest flagged edge (>= 0.08 keeps the NNPS
             # grids small); T = n_layers * cell reaches 1.8 edges
@@ -215,26 +319,29 @@ def case_strategy(draw, driver, mode):
                                           0.25, 0.3, 0.5, 0.6]))
             hmax = cfrac * lref / rs
             hs = []
-            for a in arrays:
+            for i, a in enumerate(arrays):
                 hs.append([hmax * draw(st.sampled_from(
-                    [1.0, 1.0, 0.5, 0.75, 0.3])) for _ in range(a['n'])])
+                    [1.0, 1.0, 0.5, 0.75, 0.3])) for _ in range(cur_n[i])])
             rd['h'] = hs
-            cur_h = hs
+            cur_h = [list(h) for h in hs]
         allh = [h for hh in cur_h for h in hh]
-        T = n_layers * (rs * max(allh)) if allh else lref
+        T = nl_eff * (rs * max(allh)) if allh else lref
+        pool = []
+        if rd['edit'] is not None:
+            for i, ed in enumerate(rd['edit']):
+                if ed is None:
+                    continue
+                for k, ad in enumerate(ed['add']):
+                    ad['h'] = cur_h[i][cur_n[i] - len(ed['add']) + k]
+                    del ad['hf']
+                    ad['pos'] = draw_pos(pool)
+                    pool.append(ad['pos'])
         if r == 0 or draw(st.integers(0, 3)) > 0:
             pos = []
-            pool = []
-            for a in arrays:
+            for i, a in enumerate(arrays):
                 pp = []
-                for j in range(a['n']):
-                    if pool and draw(st.integers(0, 7)) == 0:
-                        p = list(draw(st.sampled_from(pool)))
-                    else:
-                        p = [0.0] * 3
-                        for ax in range(dim):
-                            p[ax] = _draw_coord(draw, flags[ax], lo[ax],
-                                                hi[ax], T)
+                for j in range(cur_n[i]):
+                    p = draw_pos(pool)
                     pp.append(p)
                     pool.append(p)
                 pos.append(pp)
@@ -246,6 +353,22 @@ def case_strategy(draw, driver, mode):
         if r > 0 and draw(st.integers(0, 5)) == 0:
             rd['add_prop'] = dict(array=draw(st.integers(0, narr - 1)),
                                   value=float(draw(st.integers(1, 5))))
+        if r > 0:
+            k = draw(st.integers(0, 11))
+            if k < 4:
+                # the objects around the arrays are replaced before the
+                # update: a new NNPS (new wrappers) on the same
+                # DomainManager; new array objects holding the same
+                # particles (without / with the old ghosts) handed to the
+                # same DomainManager (Interpolator.update_particle_arrays);
+                # a new DomainManager on arrays that still hold the ghosts
+                # of the old one
+                rd['rewire'] = ['nnps_new', 'arrays_new',
+                                'arrays_new_ghosts', 'dm_new'][k]
+            elif k == 4:
+                # set_in_parallel(True): the update must leave the arrays
+                # alone (ghosts are the parallel manager's business)
+                rd['parallel'] = True
         rounds.append(rd)
     given = [bool(flags[a] != 'n' or draw(st.booleans()))
              for a in range(3)]
@@ -254,7 +377,7 @@ def case_strategy(draw, driver, mode):
         'periodic' if 'p' in fs else 'mirror')
     return dict(dim=dim, flags=fs, lo=lo, hi=hi, given=given,
                 n_layers=n_layers, radius_scale=rs, props_mode=pmode,
-                arrays=arrays, rounds=rounds, driver=driver,
+                backend=backend, arrays=arrays, rounds=rounds, driver=driver,
                 _klass=dict(mode=md))
 
 
@@ -304,8 +427,13 @@ def _ulp(*xs):
 def all_props(a, added):
     """name -> (ctype, stride, default) for every property of array `a`."""
     p = {}
-    for k in ('x', 'y', 'z', 'h', 'u', 'v', 'w', 'm', 'rho', 'p', 'au', 'av',
-              'aw'):
+    kind = a.get('kind', 'full')
+    names = ('x', 'y', 'z', 'h')
+    if kind != 'bare':
+        names += ('u', 'v', 'w')
+    if kind == 'full':
+        names += ('m', 'rho', 'p', 'au', 'av', 'aw')
+    for k in names:
         p[k] = ('double', 1, 0.0)
     p['tag'] = ('int', 1, 0)
     p['pid'] = ('int', 1, 0)
@@ -375,6 +503,8 @@ class Model(object):
         import numpy as np
         self.case = case
         self.added = [[] for _ in case['arrays']]
+        self.n = [a['n'] for a in case['arrays']]
+        self.next_uid = list(self.n)
         self.vals = []
         for a in case['arrays']:
             n = a['n']
@@ -396,6 +526,7 @@ class Model(object):
 def build_arrays(case, model):
     import numpy as np
     from pysph.base.utils import get_particle_array
+    from pysph.base.particle_array import ParticleArray
     pas = []
     r0 = case['rounds'][0]
     for i, a in enumerate(case['arrays']):
@@ -406,9 +537,13 @@ def build_arrays(case, model):
         v['y'][:, 0] = pos[:, 1]
         v['z'][:, 0] = pos[:, 2]
         v['h'][:, 0] = np.array(r0['h'][i], dtype=float)
+        kind = a.get('kind', 'full')
         kw = dict((k, v[k][:, 0].copy()) for k in
-                  ('x', 'y', 'z', 'h', 'u', 'v', 'w'))
-        pa = get_particle_array(name=a['name'], **kw)
+                  ('x', 'y', 'z', 'h', 'u', 'v', 'w') if k in v)
+        if kind == 'full':
+            pa = get_particle_array(name=a['name'], **kw)
+        else:
+            pa = ParticleArray(name=a['name'], **kw)
         pa.add_property('uid', type='int', default=-1,
                         data=v['uid'][:, 0].copy())
         for e in a['extra']:
@@ -422,8 +557,93 @@ def build_arrays(case, model):
                                 data=v[e].ravel().copy())
         if 'gid' in a['vals']:
             pa.gid[:] = v['gid'][:, 0]
+        for cn, cv in sorted(a.get('consts', {}).items()):
+            pa.add_constant(cn, np.array(cv, dtype=float))
+        if a.get('out') is not None:
+            pa.set_output_arrays(list(a['out']))
         pas.append(pa)
     return pas
+
+
+def counts_by_round(case):
+    """Number of real particles of every array in every round."""
+    cur = [a['n'] for a in case['arrays']]
+    out = []
+    for rd in case['rounds']:
+        ed = rd.get('edit')
+        if ed is not None:
+            for i, e in enumerate(ed):
+                if e is not None:
+                    cur[i] += len(e['add']) - len(e['remove'])
+        out.append(list(cur))
+    return out
+
+
+def apply_edit(pa, model, i, ed):
+    """Remove / add real particles of array i (which holds the ghosts of the
+    previous update) through the public ParticleArray calls and bring the
+    model in line: the expected records are the old ones of the survivors
+    plus the new ones, in the order the array now holds them.
+    -> None or a description of what ParticleArray got wrong."""
+    import numpy as np
+    v = model.vals[i]
+    n = model.n[i]
+    pr = model.props(i)
+    exp = {}
+    rem = set(ed['remove'])
+    for j in range(n):
+        if j not in rem:
+            exp[int(v['uid'][j, 0])] = dict((nm, v[nm][j].copy())
+                                            for nm in pr)
+    if ed['remove']:
+        pa.remove_particles(list(ed['remove']))
+    if ed['add']:
+        k = len(ed['add'])
+        uids = list(range(model.next_uid[i], model.next_uid[i] + k))
+        model.next_uid[i] += k
+        kw = dict(x=np.array([ad['pos'][0] for ad in ed['add']]),
+                  y=np.array([ad['pos'][1] for ad in ed['add']]),
+                  z=np.array([ad['pos'][2] for ad in ed['add']]),
+                  h=np.array([ad['h'] for ad in ed['add']]),
+                  uid=np.array(uids, dtype=np.int32))
+        if 'u' in pr:
+            for c, nm in enumerate(VEL):
+                kw[nm] = np.array([ad['uvw'][c] for ad in ed['add']])
+        pa.add_particles(**kw)
+        for t, uid in enumerate(uids):
+            rec = {}
+            for nm, (ct, stride, dflt) in pr.items():
+                a = np.empty(stride, dtype=NPTYPE[ct])
+                a[:] = dflt
+                if nm in kw:
+                    a[0] = kw[nm][t]
+                rec[nm] = a
+            exp[uid] = rec
+    ntot, nreal, obs, bad = read_array(pa)
+    if bad:
+        return '; '.join(bad)
+    if nreal != len(exp):
+        return 'num_real_particles=%d, %d expected' % (nreal, len(exp))
+    if set(obs) != set(pr):
+        return 'properties %s, expected %s' % (sorted(obs), sorted(pr))
+    got = [int(u) for u in obs['uid'][:nreal, 0]]
+    if sorted(got) != sorted(exp):
+        return 'real uids %s, expected %s' % (sorted(got), sorted(exp))
+    if np.any(obs['tag'][:nreal, 0] != 0) or \
+            np.any(obs['tag'][nreal:, 0] != GHOST):
+        return 'tags %s' % obs['tag'][:, 0].tolist()
+    newv = {}
+    for nm, (ct, stride, dflt) in pr.items():
+        arr = np.empty((nreal, stride), dtype=NPTYPE[ct])
+        for j, uid in enumerate(got):
+            arr[j] = exp[uid][nm]
+        if not _beq(arr, obs[nm][:nreal]):
+            return 'property %s of the real particles is %s, expected %s' % (
+                nm, obs[nm][:nreal].tolist(), arr.tolist())
+        newv[nm] = arr
+    model.vals[i] = newv
+    model.n[i] = nreal
+    return None
 
 
 def read_array(pa):
@@ -468,7 +688,8 @@ def check(case):
     if max(abs(v) for v in lo + hi) >= 500 * max(
             hi[a] - lo[a] for a in range(3) if flags[a] != 'n'):
         labels.add('far_origin')
-    if any(a['n'] == 0 for a in arrays):
+    counts = counts_by_round(case)
+    if any(n == 0 for cn in counts for n in cn):
         labels.add('empty_array')
     labels.add('props_' + case['props_mode'])
     for a in arrays:
@@ -477,11 +698,21 @@ def check(case):
             labels.add('strided_copied')
         if a['copy'] is None and any(EXTRA[e][1] > 1 for e in a['extra']):
             labels.add('strided_copied')
+        if a.get('kind', 'full') != 'full':
+            labels.add('plain_array')
+        if a.get('kind', 'full') == 'bare':
+            labels.add('bare_array')
+        if a.get('consts'):
+            labels.add('constants')
+    if nl is None:
+        labels.add('n_layers_default')
+        nl = 2.0                 # the documented default of the signature
+    if case.get('backend'):
+        labels.add('backend_explicit')
 
     model = Model(case)
-    total = sum(a['n'] for a in arrays)
     driver = case['driver']
-    if any(a['n'] == 0 for a in arrays):
+    if any(n == 0 for cn in counts for n in cn):
         # an empty array feeds min = max = 0 into the bounds of the NNPS
         # (C01 territory: with a far origin the cell count overflows)
         driver = 'dm'
@@ -504,24 +735,78 @@ def check(case):
             kw['periodic_in_' + AX[a]] = True
         if flags[a] == 'm':
             kw['mirror_in_' + AX[a]] = True
-    if case['props_mode'] == 'list':
-        props = list(arrays[0]['copy'])
-    elif case['props_mode'] == 'dict':
-        props = dict((a['name'], list(a['copy'])) for a in arrays)
-    else:
-        props = None
+    if case['n_layers'] is not None:
+        kw['n_layers'] = case['n_layers']
+    if case.get('backend'):
+        kw['backend'] = case['backend']
+
+    def make_props():
+        if case['props_mode'] == 'list':
+            return list(arrays[0]['copy'])
+        elif case['props_mode'] == 'dict':
+            return dict((a['name'], list(a['copy'])) for a in arrays)
+        return None
+
+    def wire(dm, pas):
+        """Hand the arrays to the domain manager (through a new NNPS of the
+        driver's class or directly) and run the first update.  -> nnps"""
+        if driver == 'dm':
+            dm.set_pa_wrappers([NNPSParticleArrayWrapper(pa)
+                                for pa in pas])
+            dm.set_radius_scale(rs)
+            dm.update()
+            return None
+        elif driver == 'll':
+            return LinkedListNNPS(dim=3, particles=pas, domain=dm,
+                                  radius_scale=rs)
+        elif driver == 'bs':
+            return BoxSortNNPS(dim=3, particles=pas, domain=dm,
+                               radius_scale=rs)
+        return SpatialHashNNPS(dim=case['dim'], particles=pas,
+                               domain=dm, radius_scale=rs)
+
+    def side_state(pa):
+        return (dict((k, np.array(c.get_npy_array(), copy=True).tolist())
+                     for k, c in pa.constants.items()),
+                list(pa.output_property_arrays), pa.name)
+
     nnps = None
     # (a failure of our own construction is a harness error, not caught)
     pas = build_arrays(case, model)
-    dm = DomainManager(n_layers=nl, props=props, **kw)
+    dm = DomainManager(props=make_props(), **kw)
     nontrivial = False
     prev_ghost_h = []          # h of the ghosts left by the previous round
     for r, rd in enumerate(case['rounds']):
         # ------------------------------------------------ apply the round
         if r > 0:
+            if rd.get('edit') is not None:
+                bad = None
+                for i, ed in enumerate(rd['edit']):
+                    if ed is None:
+                        continue
+                    n0 = model.n[i]
+                    bad = apply_edit(pas[i], model, i, ed)
+                    if bad:
+                        fail('edit_bookkeeping', 'round %d array %d: after '
+                             'remove_particles(%s) + add_particles(%d) on the '
+                             'ghosted array: %s' % (r, i, ed['remove'],
+                                                    len(ed['add']), bad),
+                             dict(later_array=bool(i > 0)))
+                        break
+                    labels.add('resized')
+                    if n0 and not model.n[i]:
+                        labels.add('emptied')
+                    if model.n[i] and not n0:
+                        labels.add('refilled')
+                    if model.n[i] > n0:
+                        labels.add('grown')
+                    if ed['remove'] and model.n[i]:
+                        labels.add('shrunk_partly')
+                if bad:
+                    break
             if rd['h'] is not None:
                 for i in range(narr):
-                    n = arrays[i]['n']
+                    n = model.n[i]
                     newh = np.array(rd['h'][i], dtype=float)
                     if n and not np.array_equal(newh,
                                                 model.vals[i]['h'][:, 0]):
@@ -532,7 +817,7 @@ def check(case):
                 for i in range(narr):
                     if rd['pos'][i] is None:
                         continue
-                    n = arrays[i]['n']
+                    n = model.n[i]
                     pos = np.array(rd['pos'][i], dtype=float).reshape(n, 3)
                     for ax in range(3):
                         model.vals[i][AX[ax]][:, 0] = pos[:, ax]
@@ -542,7 +827,7 @@ def check(case):
                 i = rd['add_prop']['array']
                 nm = 'late%d' % r
                 val = rd['add_prop']['value']
-                n = arrays[i]['n']
+                n = model.n[i]
                 pas[i].add_property(nm, default=val)
                 model.added[i].append((nm, val))
                 arr = np.empty((n, 1))
@@ -557,7 +842,7 @@ def check(case):
         # labels on the input of this round
         for i in range(narr):
             v = model.vals[i]
-            n = arrays[i]['n']
+            n = model.n[i]
             for ax in range(3):
                 if flags[ax] == 'n' or n == 0:
                     continue
@@ -568,34 +853,51 @@ def check(case):
                           (c == _next(hi[ax], True))):
                     labels.add('ulp_outside')
         allpos = [tuple(model.vals[i][k][j, 0] for k in AX)
-                  for i in range(narr) for j in range(arrays[i]['n'])]
+                  for i in range(narr) for j in range(model.n[i])]
         if len(set(allpos)) < len(allpos):
             labels.add('coincident')
+        total = sum(model.n)
         before = [dict((k, a.copy()) for k, a in model.vals[i].items())
                   for i in range(narr)]
+        rewire = rd.get('rewire') if r > 0 else None
+        parallel = bool(rd.get('parallel')) and r > 0
+        if rewire in ('arrays_new', 'arrays_new_ghosts'):
+            # new array objects holding the same particles (as when the
+            # arrays are re-read from a file), the old ghosts included or not
+            newpas = []
+            for i, pa in enumerate(pas):
+                cnt = pa.get_number_of_particles() \
+                    if rewire == 'arrays_new_ghosts' else model.n[i]
+                newpas.append(pa.extract_particles(np.arange(cnt)))
+            pas = newpas
+        elif rewire == 'dm_new':
+            dm = DomainManager(props=make_props(), **kw)
+        if rewire:
+            labels.add('rewire:' + rewire)
+        side = [side_state(pa) for pa in pas]
+        if parallel:
+            snap = [read_array(pa) for pa in pas]
         # ------------------------------------------------------- update
         try:
-            if r == 0:
-                if driver == 'dm':
-                    dm.set_pa_wrappers([NNPSParticleArrayWrapper(pa)
-                                        for pa in pas])
-                    dm.set_radius_scale(rs)
+            if r == 0 or rewire:
+                nnps = None
+                nnps = wire(dm, pas)
+            elif parallel:
+                if nnps is None:
+                    dm.set_in_parallel(True)
                     dm.update()
-                elif driver == 'll':
-                    nnps = LinkedListNNPS(dim=3, particles=pas, domain=dm,
-                                          radius_scale=rs)
-                elif driver == 'bs':
-                    nnps = BoxSortNNPS(dim=3, particles=pas, domain=dm,
-                                       radius_scale=rs)
+                    dm.set_in_parallel(False)
                 else:
-                    nnps = SpatialHashNNPS(dim=case['dim'], particles=pas,
-                                           domain=dm, radius_scale=rs)
+                    nnps.set_in_parallel(True)
+                    nnps.update_domain()
+                    nnps.set_in_parallel(False)
             else:
                 if nnps is None:
                     dm.update()
                 else:
                     nnps.update_domain()
-            if nnps is not None and r > 0 and rd['update_nnps']:
+            if nnps is not None and r > 0 and rd['update_nnps'] and \
+                    not parallel:
                 nnps.update()
         except Exception as ex:
             if isinstance(ex, RuntimeError) and 'too many cells' in str(ex):
@@ -608,9 +910,41 @@ def check(case):
             else:
                 fail('exception', 'round %d: %r' % (r, ex))
                 break
+        # constants, output list and name belong to the array, not to the
+        # particles: an update has no business with them
+        bad = None
+        for i, pa in enumerate(pas):
+            if side_state(pa) != side[i]:
+                bad = 'round %d array %d: constants / output arrays / name ' \
+                    'changed from %r to %r' % (r, i, side[i], side_state(pa))
+                break
+        if bad:
+            fail('array_state_changed', bad)
+            break
+        if parallel:
+            # "In parallel, it is expected that the appropriate parallel
+            # NNPS is responsible for the creation of ghost particles":
+            # the arrays (old ghosts included) are left exactly as they are
+            labels.add('in_parallel')
+            bad = None
+            for i, pa in enumerate(pas):
+                now = read_array(pa)
+                if now[0] != snap[i][0] or now[1] != snap[i][1] or \
+                        now[3] or set(now[2]) != set(snap[i][2]) or any(
+                            not _beq(now[2][k], snap[i][2][k])
+                            for k in now[2]):
+                    bad = 'round %d array %d: update() with in_parallel ' \
+                        'set changed the array (%d -> %d particles, ' \
+                        '%d -> %d real)' % (r, i, snap[i][0], now[0],
+                                            snap[i][1], now[1])
+                    break
+            if bad:
+                fail('parallel_touched', bad)
+                break
+            continue
         # ---------------------------------------------------- threshold
         hs = [model.vals[i]['h'][:, 0] for i in range(narr)
-              if arrays[i]['n']]
+              if model.n[i]]
         hmax = max(float(h.max()) for h in hs) if hs else 0.0
         T = nl * (rs * hmax)
         stale = max([hmax] + prev_ghost_h)
@@ -618,6 +952,8 @@ def check(case):
         for ax in range(3):
             if flags[ax] != 'n' and 2 * T > hi[ax] - lo[ax]:
                 labels.add('thin_box')
+            if flags[ax] != 'n' and T > hi[ax] - lo[ax] and total:
+                labels.add('layer_wider_than_box')
         # --------------------------------------------------- read back
         arrays_with_ghosts = 0
         mirror_arrays = 0
@@ -628,7 +964,7 @@ def check(case):
         stop = False
         for i in range(narr):
             a = arrays[i]
-            n = a['n']
+            n = model.n[i]
             ntot, nreal, obs, bad = read_array(pas[i])
             obs_all.append(obs)
             kl = dict(later_array=bool(i > 0))
@@ -717,6 +1053,8 @@ def check(case):
             if res['corner']:
                 round_corner = True
                 labels.add('corner_image')
+            if res['corner3']:
+                labels.add('corner3_image')
             if res['band']:
                 labels.add('threshold_band')
             if res['mirror_ghosts']:
@@ -787,11 +1125,14 @@ def match_ghosts(case, i, model, obs, n, ntot, T, pr):
     expected = {}
     n_req = n_opt = 0
     corner = False
+    corner3 = False
     band = False
     mirror_ghosts = False
+    row = {}
     for j in range(n):
         pos = [float(v[k][j, 0]) for k in AX]
         imgs = enumerate_images(case, pos, T)
+        row[int(v['uid'][j, 0])] = j
         for im in imgs:
             if im['req']:
                 n_req += 1
@@ -800,7 +1141,7 @@ def match_ghosts(case, i, model, obs, n, ntot, T, pr):
                 band = True
         # required images first: the matching then prefers them
         imgs.sort(key=lambda m: not m['req'])
-        expected[j] = imgs
+        expected[int(v['uid'][j, 0])] = imgs
     groups = {}
     for g in range(n, ntot):
         uid = int(obs['uid'][g, 0])
@@ -812,7 +1153,7 @@ def match_ghosts(case, i, model, obs, n, ntot, T, pr):
         groups.setdefault(uid, []).append(g)
     for uid, imgs in expected.items():
         gl = groups.get(uid, [])
-        src = [float(v[k][uid, 0]) for k in AX]
+        src = [float(v[k][row[uid], 0]) for k in AX]
         posok = {}
         adj = {}
         why = {}
@@ -832,7 +1173,7 @@ def match_ghosts(case, i, model, obs, n, ntot, T, pr):
                 if not ok:
                     continue
                 posok[g].append(t)
-                w = record_mismatch(im, obs, g, v, uid, pr, copy)
+                w = record_mismatch(im, obs, g, v, row[uid], pr, copy)
                 if w is None:
                     adj[g].append(t)
                 else:
@@ -879,6 +1220,8 @@ def match_ghosts(case, i, model, obs, n, ntot, T, pr):
                 nops = sum(1 for o in im['ops'] if o is not None)
                 if nops >= 2:
                     corner = True
+                if nops >= 3:
+                    corner3 = True
                 if any(o is not None and o[0] == 'M' for o in im['ops']):
                     mirror_ghosts = True
             elif im['req']:
@@ -886,7 +1229,7 @@ def match_ghosts(case, i, model, obs, n, ntot, T, pr):
                                  ' expected at %r is absent' % (
                                      [o for o in im['ops'] if o], uid, src,
                                      im['pos'])))
-    return dict(problems=problems, corner=corner, band=band,
+    return dict(problems=problems, corner=corner, corner3=corner3, band=band,
                 mirror_ghosts=mirror_ghosts, n_req=n_req, n_opt=n_opt)
 
 
@@ -939,7 +1282,7 @@ def completeness(case, model, obs_all, rs, nnps, UIntArray):
     big = max(abs(x) for x in lo + hi)
     nbrs = UIntArray() if nnps is not None else None
     for s in range(narr):
-        ns = arrays[s]['n']
+        ns = model.n[s]
         if ns == 0:
             continue
         sp = np.column_stack([model.vals[s][k][:, 0] for k in AX])
@@ -950,7 +1293,7 @@ def completeness(case, model, obs_all, rs, nnps, UIntArray):
         oh = obs_all[s]['h'][:, 0]
         tol = 8 * math.ulp(max(big, float(np.abs(op).max()), 1e-300))
         for d in range(narr):
-            nd = arrays[d]['n']
+            nd = model.n[d]
             for j in range(nd):
                 q = np.array([model.vals[d][k][j, 0] for k in AX])
                 hq = float(model.vals[d]['h'][j, 0])
